@@ -5,7 +5,8 @@
 From Coq Require Import String.
 From Coq Require Import List NArith ZArith Bool.
 From Verif Require Import Zip.Bytes Zip.BytesProofs Zip.Model Zip.PathProofs Zip.ZipProofs Zip.FsProofs
-  Zip.UnzipProofs Zip.CollisionProofs Zip.HostileProofs Zip.Examples.
+  Zip.UnzipProofs Zip.CollisionProofs Zip.HostileProofs Zip.ElemProofs Zip.RoundtripProofs Zip.CreateProofs
+  Zip.AgreeProofs Zip.Examples.
 Import ListNotations.
 
 (* module.CheckFilePath accepts only relative, clean paths whose elements are non-empty,
@@ -142,3 +143,103 @@ Theorem C15_no_module_file_rejected : forall is_letter fold_min zs es,
   checked_err (check_zip is_letter fold_min zs es) = true.
 Proof. exact no_module_file_rejected. Qed.
 Print Assumptions C15_no_module_file_rejected.
+
+(* symlink / directory / irregular mode bits of an entry are never consulted: Unzip behaves
+   identically, i.e. whatever it creates is a regular file (node NFile) or a MkdirAll directory *)
+Theorem C15_unzip_ignores_mode_bits : forall is_letter fold_min g dir fs zs es,
+  unzip is_letter fold_min dir fs zs (map (rekind g) es) = unzip is_letter fold_min dir fs zs es.
+Proof. exact unzip_ignores_mode_bits. Qed.
+Print Assumptions C15_unzip_ignores_mode_bits.
+
+(* in an accepted archive no file entry's path is equal to, or a directory prefix of, another's *)
+Theorem C15_accepted_no_clash : forall is_letter fold_min zs es,
+  checked_err (check_zip is_letter fold_min zs es) = false -> no_clash es.
+Proof. exact accepted_no_clash. Qed.
+Print Assumptions C15_accepted_no_clash.
+
+(* every accepted archive with honest headers extracts completely into an empty or missing
+   directory; afterwards the regular files beneath it are exactly the file entries *)
+Theorem C15_unzip_accepted_honest_ok : forall is_letter fold_min dir,
+  clean_elems true [] dir = dir -> dir <> [] ->
+  forall fs zs es,
+  checked_err (check_zip is_letter fold_min zs es) = false -> Forall honest es ->
+  dir_nonempty fs dir = false -> mkdir_all fs dir <> None ->
+  exists fs', unzip is_letter fold_min dir fs zs es = (fs', UOk) /\ beneath_inv dir es fs'.
+Proof. exact unzip_accepted_honest_ok. Qed.
+Print Assumptions C15_unzip_accepted_honest_ok.
+
+(* every archive Create emits passes CheckZip; it holds the valid files of the path-sorted list,
+   in that order, with honest headers *)
+Theorem C15_create_passes_check : forall is_letter fold_min files es zs,
+  create is_letter fold_min files = Some es -> (zs <= MaxZipFile)%Z ->
+  checked_err (check_zip is_letter fold_min zs es) = false /\
+  es = map created_entry (valid_files is_letter fold_min (sort_files files)) /\
+  Forall (fun e => is_file e /\ honest e) es.
+Proof. exact create_passes_check. Qed.
+Print Assumptions C15_create_passes_check.
+
+(* Create then Unzip reproduces exactly the valid files with identical content *)
+Theorem C15_create_unzip_roundtrip : forall is_letter fold_min dir,
+  clean_elems true [] dir = dir -> dir <> [] ->
+  forall files es fs zs,
+  create is_letter fold_min files = Some es -> (zs <= MaxZipFile)%Z ->
+  dir_nonempty fs dir = false -> mkdir_all fs dir <> None ->
+  exists fs', unzip is_letter fold_min dir fs zs es = (fs', UOk) /\
+    (forall f, In f (valid_files is_letter fold_min (sort_files files)) ->
+       fs_lookup fs' (dir ++ split_slash (f_name f)) = Some (NFile (f_data f))) /\
+    (forall q c, fs_lookup fs' q = Some (NFile c) -> strict_prefix dir q = true ->
+       exists f, In f (valid_files is_letter fold_min (sort_files files)) /\
+                 q = dir ++ split_slash (f_name f) /\ c = f_data f).
+Proof. exact create_unzip_roundtrip. Qed.
+Print Assumptions C15_create_unzip_roundtrip.
+
+(* the file-list check and the zip check give every file the same verdict, under the exact
+   side condition agree_cond (regular, expressible size, not a directory entry, not omitted by
+   checkFiles, not the root file cue.mod, no wrongly-cased cue.mod/module.cue) *)
+Theorem C15_checks_agree_when : forall is_letter fold_min files,
+  Forall (agree_cond (have_cue_mod files)) files ->
+  fst (check_files_verdicts is_letter fold_min files) =
+  fst (check_zip_verdicts is_letter fold_min (map entry_of_file files)).
+Proof. exact checks_agree_when. Qed.
+Print Assumptions C15_checks_agree_when.
+
+Theorem C15_checks_agree_valid_lists : forall is_letter fold_min files zs, (zs <= MaxZipFile)%Z ->
+  Forall (agree_cond (have_cue_mod files)) files ->
+  c_valid (check_files is_letter fold_min files) =
+  c_valid (check_zip is_letter fold_min zs (map entry_of_file files)).
+Proof. exact checks_agree_valid_lists. Qed.
+Print Assumptions C15_checks_agree_valid_lists.
+
+(* ... and without it the property as worded fails on the faithful model (known finding F7) *)
+Theorem C15_checks_agree_refuted_root_file :
+  exists files, Forall (fun f => f_kind f = KRegular) files /\
+    fst (check_files_verdicts (fun _ => false) (fun r => r) files) = [VValid] /\
+    fst (check_zip_verdicts (fun _ => false) (fun r => r) (map entry_of_file files)) = [VInvalid].
+Proof. exact checks_agree_refuted_root_file. Qed.
+Print Assumptions C15_checks_agree_refuted_root_file.
+
+Theorem C15_checks_agree_refuted_case_variant :
+  exists files, Forall (fun f => f_kind f = KRegular) files /\
+    fst (check_files_verdicts (fun _ => false) (fun r => r) files) = [VInvalid; VValid] /\
+    fst (check_zip_verdicts (fun _ => false) (fun r => r) (map entry_of_file files)) = [VInvalid; VInvalid].
+Proof. exact checks_agree_refuted_case_variant. Qed.
+Print Assumptions C15_checks_agree_refuted_case_variant.
+
+Example C15_ex_agree_cond_nonvacuous :
+  let files := [rf "cue.mod/module.cue"; rf "x.cue"; rf "sub/y.cue"; rf "LICENSE"] in
+  Forall (agree_cond (have_cue_mod files)) files /\
+  fst (check_files_verdicts (fun _ => false) (fun r => r) files) = [VValid; VValid; VValid; VValid].
+Proof. exact agree_cond_nonvacuous. Qed.
+Print Assumptions C15_ex_agree_cond_nonvacuous.
+
+(* non-vacuity: a concrete module is created, checked, extracted; hostile names are rejected *)
+Example C15_ex_create : create no_letter id_fold ex_files = Some ex_archive.
+Proof. exact ex_create. Qed.
+Print Assumptions C15_ex_create.
+
+Example C15_ex_hostile_rejected :
+  forallb (fun n => checked_err (check_zip no_letter id_fold 100 (hostile n)))
+    ["../sentinel"; "/etc/passwd"; "a\b"; "C:x"; "sub/../../x"; "CUE.MOD/module.cue"; "sub/cue.mod/module.cue";
+     "cue.mod/local-module.cue"; "Cue.Mod/Module.cue"; "cue.mod/module.cue"; "nul.txt"; "a."; "a//b"; "./a"]%string = true.
+Proof. exact ex_hostile_rejected. Qed.
+Print Assumptions C15_ex_hostile_rejected.
